@@ -11,10 +11,11 @@ let run (toks : string list) : string =
         if e = "T" then ConnRead.SockTimeout else if e = "E" then ConnRead.SockEOF
         else ConnRead.SockData (unhex (String.sub e 2 (String.length e - 2)))) (split_on ',' evs) in
     let bs = L.map (fun b -> nat_of_int (int_of_string b)) (split_on ',' bsizes) in
-    let ((rs, _), _) = ConnRead.run_reads Framing.cc_open s.Framing.dec_key (ConnRead.init_conn N0) bs evs in
+    let ((rs, _), _) = ConnRead.run_reads (not (try Sys.getenv "HC_MODEL_PINNED" = "1" with Not_found -> false)) Framing.cc_open s.Framing.dec_key (ConnRead.init_conn N0) bs evs in
     String.concat " " (L.map (fun r -> match r with
         | ConnRead.RData d -> "d:" ^ hx d
         | ConnRead.RTimeout -> "t"
-        | ConnRead.RErr c -> if int_of_n c = 1 then "e:eof" else "e:closed"
+        | ConnRead.RZero -> "z"
+        | ConnRead.RErr c -> if int_of_n c = 1 then "e:eof" else "e:err"
         | ConnRead.RBlocked -> "b") rs)
   | _ -> "badcase"
